@@ -122,7 +122,7 @@ Section Eval.
                    (combine pays kids))
             mine (repeatT (zero NN) arity) in
         match reduce_max payoffs with
-        | Some m => div NN m total
+        | Some m => if ltb NN (zero NN) total then div NN m total else zero NN
         | None => zero NN
         end
     end.
